@@ -55,7 +55,43 @@ def corpus(rng, thorough):
         return int(rng.choice(["1", "-1"]) + "".join(rng.choice("0123456789") for _ in range(rng.choice([1, 9, 10, 11, 50, 399, 400, 401, 2000]))))
     for _ in range(3000 if thorough else 300):
         vs.append(rec(4))
+    # object graphs that refer back to themselves (picklable at every protocol): compared structurally by `cyclic_ok`
+    l1 = [1, 2]
+    l1.append(l1)
+    d1 = {"name": "root"}
+    d1["self"] = d1
+    d2 = {"child": []}
+    d2["child"].append(d2)
+    p1 = Point(1, None)
+    p1.y = [p1]
+    shared = [7]
+    vs += [Cyclic(l1, "list"), Cyclic(d1, "dict"), Cyclic(d2, "dict-child"), Cyclic(p1, "object"), [shared, shared, (shared,)]]
     return vs
+
+
+class Cyclic:
+    """marker around a self-referential value (== would recurse for ever)"""
+
+    def __init__(self, value, shape):
+        self.value, self.shape = value, shape
+
+    def __repr__(self):
+        return "<cyclic %s>" % self.shape
+
+
+def cyclic_ok(shape, back):
+    try:
+        if shape == "list":
+            return type(back) is list and back[:2] == [1, 2] and back[2] is back
+        if shape == "dict":
+            return type(back) is dict and back["name"] == "root" and back["self"] is back
+        if shape == "dict-child":
+            return type(back) is dict and back["child"][0] is back
+        if shape == "object":
+            return type(back) is Point and back.x == 1 and back.y[0] is back
+    except Exception:
+        return False
+    return False
 
 
 def model_val(v):
@@ -91,10 +127,13 @@ def main(argv):
     n = 0
     for sname, sd, comp in serdes:
         for vi, v in enumerate(vals):
+            cyc = None
+            if isinstance(v, Cyclic):
+                cyc, v = v.shape, v.value
             if not ctx.thorough and sname.startswith("pickle") and sname not in ("pickle0", "pickle2", "pickle5", "pickle_serde") and vi % 3:
                 continue
             n += 1
-            case = {"serde": sname, "value": repr(v)[:70], "type": type(v).__name__}
+            case = {"serde": sname, "value": ("<self-referential %s>" % cyc) if cyc else repr(v)[:70], "type": type(v).__name__}
             tags = ["serde:" + sname.split("-")[0]]
             if type(v) is int:
                 tags.append("int-value")
@@ -127,7 +166,7 @@ def main(argv):
             except Exception as e:
                 ctx.violation("deserialize raised on the serializer's own output", dict(case, error=repr(e)[:100]), tags=tags)
                 continue
-            same = (back == v or (back != back and v != v)) and type(back) is type(v)
+            same = cyclic_ok(cyc, back) if cyc else ((back == v or (back != back and v != v)) and type(back) is type(v))
             if not same:
                 ctx.violation("round trip does not return an equal value of exactly the same type", dict(case, got=repr(back)[:70], got_type=type(back).__name__), tags=tags)
             if comp is not None:
